@@ -59,7 +59,8 @@ KeyId(s, strictName) ==
   IF c = 0 \/ c = 1 THEN "mustnot"
   ELSE LET name == SubSeq(s, c + 1, Len(s)) IN
        IF ~strictName THEN "must"
-       ELSE IF name # <<>> /\ All(name, IsKeyNameChar) THEN "must" ELSE "unspec"
+       \* "the version must have characters matching the regular expression [a-zA-Z0-9_]"
+       ELSE IF name = <<>> THEN "unspec" ELSE IF All(name, IsKeyNameChar) THEN "must" ELSE "mustnot"
 MXC == <<109, 120, 99, 58, 47, 47>>
 MxcUri(s) ==
   IF Len(s) < 6 \/ SubSeq(s, 1, 6) # MXC THEN "mustnot"
@@ -70,7 +71,7 @@ MxcUri(s) ==
             IN And3(sv, mv)
 IsB64(c) == IsDigit(c) \/ IsLower(c) \/ IsUpper(c) \/ c \in {43, 47, 45, 95}
 EventId(s) ==
-  IF s = <<>> \/ s[1] # 36 \/ Bytes(s) > 255 THEN "mustnot"
+  IF s = <<>> \/ s[1] # 36 \/ Bytes(s) > 255 \/ (\E i \in 1..Len(s) : s[i] = 0) THEN "mustnot"
   ELSE LET c == Find(s, 58) IN
        IF c = 0 THEN (IF Len(s) = 44 /\ All(Tail(s), IsB64) THEN "must" ELSE "unspec")
        ELSE And3(IF c > 2 THEN "must" ELSE "unspec", ServerName(SubSeq(s, c + 1, Len(s))))
@@ -78,6 +79,14 @@ RoomOrAliasId(s) == IF s = <<>> THEN "mustnot" ELSE IF s[1] = 35 THEN RoomAliasI
 IsVersionChar(c) == IsDigit(c) \/ IsLower(c) \/ IsUpper(c) \/ c = 45 \/ c = 46
 RoomVersionId(s) == IF s = <<>> \/ Len(s) > 32 THEN "mustnot" ELSE IF All(s, IsVersionChar) THEN "must" ELSE "unspec"
 
+\* client secrets and session IDs: [0-9a-zA-Z.=_-]{1,255}
+IsSecretChar(c) == IsDigit(c) \/ IsLower(c) \/ IsUpper(c) \/ c \in {46, 61, 95, 45}
+OpaqueToken(s) == IF s = <<>> \/ Bytes(s) > 255 \/ ~All(s, IsSecretChar) THEN "mustnot" ELSE "must"
+\* a public key used as a key name: unpadded base64; padding and the URL-safe alphabet are left open, anything else is not base64
+Base64Key(s) == IF s = <<>> THEN "mustnot"
+                ELSE IF All(s, LAMBDA c : IsDigit(c) \/ IsLower(c) \/ IsUpper(c) \/ c \in {43, 47}) THEN "must"
+                ELSE IF All(s, LAMBDA c : IsDigit(c) \/ IsLower(c) \/ IsUpper(c) \/ c \in {43, 47, 61, 45, 95}) THEN "unspec"
+                ELSE "mustnot"
 Verdict(kind, s) ==
   CASE kind = "server" -> ServerName(s)
     [] kind = "user" -> UserId(s)
@@ -89,6 +98,8 @@ Verdict(kind, s) ==
     [] kind = "devicekey" -> KeyId(s, FALSE)
     [] kind = "mxc" -> MxcUri(s)
     [] kind = "version" -> RoomVersionId(s)
+    [] kind \in {"clientsecret", "sessionid"} -> OpaqueToken(s)
+    [] kind = "b64key" -> Base64Key(s)
 
 (* components of an accepted identifier (used to check the accessors); positions are 1-based *)
 ColonPos(s) == Find(s, 58)
